@@ -154,6 +154,44 @@ def readonly_inputs(ctx, cfgs):
             ctx.event('read-only-inputs', cfg, n=int(mm.group(2)))
 
 
+def helgrind(ctx, cfgs):
+    """valgrind helgrind over the PRODUCTION code generation: unlike TSan it also sees the loads and stores of the assembly routines"""
+    vg = shutil.which('valgrind')
+    if not vg:
+        raise harness.HarnessError('valgrind not found')
+    for cfg in cfgs:
+        try:
+            exe = build.build_driver(cfg, 'c20_drv.cpp', extra_ld=['-lpthread'])
+        except build.BuildError as e:
+            raise harness.HarnessError(str(e)[-1500:])
+        for rep in range(2 if ctx.quick else 12):
+            T = (4, 8)[rep % 2]
+            n = 10 if ctx.quick else 24
+            seed = ctx.seed * 313 + rep
+            r = subprocess.run([vg, '--tool=helgrind', '-q', '--error-exitcode=96', '--num-callers=16', exe, '--threads', str(T), str(n), str(seed)],
+                               stdout=subprocess.PIPE, stderr=subprocess.PIPE, text=True, timeout=3000)
+            if re.search(r'^==\d+== ', r.stderr, re.M):
+                blocks = re.split(r'==\d+== -{20,}', r.stderr)
+                seen = set()
+                for blk in blocks:
+                    k = harness.classify_valgrind(blk)
+                    if not k or k in seen:
+                        continue
+                    seen.add(k)
+                    ctx.violation('helgrind:%s' % k.split(':', 1)[1], 'helgrind report (%s build, %d threads, seed %d): %s' % (cfg, T, seed, blk[:1500]), {'config': cfg, 'threads': T, 'seed': seed, 'ops': n, 'tool': 'helgrind'})
+            elif r.returncode != 0:
+                ctx.violation('threads:crash:%s' % harness.classify_failure(r.returncode, r.stderr), 'helgrind run failed rc=%s: %s' % (r.returncode, r.stderr[-800:]), {'config': cfg, 'seed': seed})
+                continue
+            m = re.search(r'threads=(\d+) ops=(\d+) mismatches=(\d+) overlapping_pairs=(\d+)', r.stdout)
+            if not m:
+                raise harness.HarnessError('helgrind run printed no summary: %s %s' % (r.stdout[-300:], r.stderr[-300:]))
+            if int(m.group(3)):
+                fam = re.findall(r'MISMATCH thread=\d+ op=\d+ family=(\S+)', r.stdout)
+                ctx.violation('threads:result-differs:%s' % (fam[0] if fam else '?'), 'concurrent calls under helgrind returned results different from the sequential replay', {'config': cfg, 'seed': seed, 'tool': 'helgrind'})
+            input_changes(ctx, r.stdout, cfg, 'helgrind run')
+            ctx.event('concurrent-run', 'helgrind-%s/T%d' % (cfg, T), n=int(m.group(2)))
+
+
 def tsan_key(err):
     """dedupe a TSan report by its outermost library frames"""
     frames = re.findall(r'#\d+ (\S+) ', err)
@@ -178,7 +216,7 @@ def threads(ctx, cfgs):
                                               env={'TSAN_OPTIONS': 'halt_on_error=0:exitcode=97:history_size=4'})
             if 'ThreadSanitizer' in err:
                 for blk in err.split('WARNING: ThreadSanitizer')[1:]:
-                    ctx.violation('tsan:%s:%s' % (blk.split('\n')[0].strip(': ')[:30].replace(' ', '_'), tsan_key(blk)),
+                    ctx.violation('tsan:%s:%s' % (re.sub(r'_?\(pid=\d+\)', '', blk.split('\n')[0].strip(': ')[:40].replace(' ', '_')), tsan_key(blk)),
                                   'ThreadSanitizer report (%s build, %d threads, seed %d): %s' % (cfg, T, seed, blk[:1500]), {'config': cfg, 'threads': T, 'seed': seed, 'ops': n})
             elif rc != 0:
                 ctx.violation('threads:crash:%s' % harness.classify_failure(rc, err), 'threaded run failed rc=%s: %s' % (rc, err[-800:]), {'config': cfg, 'threads': T, 'seed': seed})
@@ -221,6 +259,7 @@ def run(ctx):
             snapshot(ctx, work, cfg, exe, objs)
         readonly_inputs(ctx, ['prod'] if ctx.quick else ['prod', 'p64', 'p32'])
         threads(ctx, ['tsan'] if ctx.quick else ['tsan', 'p64-tsan', 'p32-tsan'])
+        helgrind(ctx, ['prod-g'])
     finally:
         shutil.rmtree(work, ignore_errors=True)
     ctx.rule = ('(1) closure: undefined-symbol table of every library object (prod/portable-64/portable-32) against the allowed set, and a freestanding -nostdlib -static link with a runtime '
@@ -230,9 +269,9 @@ def run(ctx):
                 'operation at once; no TSan report, results equal to a sequential replay; the evidence lists which family pairs were actually observed overlapping; '
                 '(5) const inputs stay const: the shared inputs (parameters, keys, attribute lists with identities >= r and >= 2r and hidden entries, scalars >= r, prepared G2, hash inputs) are '
                 'byte-compared with a snapshot after every workload, and production builds run every family sequentially and on 8 threads with those inputs in read-only pages (a write faults and '
-                'names the family and the field)')
-    ctx.assumptions = ['TSan does not see inside the assembly routines (they touch only their arguments)', 'a finite number of schedules is observed, not all interleavings']
-    need = ['read-only-inputs|prod', 'closure-executed|prod', 'closure-executed|p64', 'closure-executed|p32', 'no-syscalls|', 'writable-symbol-unchanged|prod/', 'concurrent-run|tsan/T4', 'concurrent-run|tsan/T8']
+                'names the family and the field); (6) valgrind helgrind over the production build, which also observes the memory accesses of the assembly routines')
+    ctx.assumptions = ['TSan does not see inside the assembly routines (helgrind on the production build does, at lower volume)', 'a finite number of schedules is observed, not all interleavings']
+    need = ['concurrent-run|helgrind-prod-g/T4', 'read-only-inputs|prod', 'closure-executed|prod', 'closure-executed|p64', 'closure-executed|p32', 'no-syscalls|', 'writable-symbol-unchanged|prod/', 'concurrent-run|tsan/T4', 'concurrent-run|tsan/T8']
     for r in need:
         if not any(k.startswith(r) for k in ctx.classes):
             ctx.required_classes.add(r)
